@@ -76,12 +76,13 @@ const FINISH_WAIT: Duration = Duration::from_secs(25);
 /// `read -t`: a latch nobody releases ends by itself (no stray shell survives a crashed case)
 const LATCH_READ_TIMEOUT_S: u32 = 90;
 
-/// Confirmed defect (see replays/known/C11/tool_timeout_leaves_command_running.json): a tool
-/// envelope with `timeout_ms` fails the tool at the timeout but the shell command keeps running
-/// after the workspace lock is released. Envelope timeouts are therefore stripped from generated
-/// cases (counted as `excluded_known_tool_timeout_overlap`); `allow_known` cases and
-/// VERIF_NO_EXCLUDE=1 keep them.
-const EXCLUDE_KNOWN_TIMEOUT_OVERLAP: bool = true;
+/// Defect found by this check and fixed in the repository (commit 95bb67e, reproducer
+/// replays/regress/C11/fixed_tool_timeout_leaves_command_running.json): a tool envelope with
+/// `timeout_ms` failed the tool at the timeout and released the workspace lock while the shell
+/// command kept running. While it was open, envelope timeouts were stripped from generated cases
+/// (counter `excluded_known_tool_timeout_overlap`); set this back to `true` to exclude the region
+/// again (`allow_known` cases and VERIF_NO_EXCLUDE=1 always keep it).
+const EXCLUDE_KNOWN_TIMEOUT_OVERLAP: bool = false;
 
 fn no_exclude() -> bool {
     matches!(std::env::var("VERIF_NO_EXCLUDE").ok().as_deref(), Some(v) if !v.is_empty() && v != "0")
